@@ -72,7 +72,22 @@ def check(ctx, src):
                 desc.add(c)
                 grew = True
     passes = first is not None and len(first.body) == 1 and isinstance(first.body[0], ast.Raise) and first.body[0].exc is None
-    if passes and not types(first) <= desc:
+    narrowed = False
+    if first is not None and not passes and first.name:
+        # one handler for everything that re-raises reader errors by an isinstance test before converting the rest
+        for st_ in first.body:
+            if isinstance(st_, ast.If) and st_.body and isinstance(st_.body[0], ast.Raise) and st_.body[0].exc is None:
+                c_ = st_.test
+                if isinstance(c_, ast.Call) and dotted(c_.func) == "isinstance" and len(c_.args) == 2 and isinstance(c_.args[0], ast.Name) and c_.args[0].id == first.name:
+                    tys = {str(norm(t_)) for t_ in (c_.args[1].elts if isinstance(c_.args[1], ast.Tuple) else [c_.args[1]])}
+                    if tys and tys <= desc:
+                        passes = narrowed = True
+                    elif tys:
+                        passes = None
+                break
+            if not isinstance(st_, ast.Expr):
+                break
+    if passes and not narrowed and not types(first) <= desc:
         ctx.decide("FUNNEL-TRY", f"{HR}|try_parse_one_form|handlers", False, f"handlers are {names}: the pass-through handler also lets {sorted(types(first) - desc)} escape unconverted", HR, tr.lineno,
                    witness="a plain SyntaxError/ValueError raised while reading (e.g. by a reader macro) escapes hy.read-many as itself", detail=str(names))
         passes = None
